@@ -17,7 +17,8 @@ def one(m):
         repo=d+'/repo'
         shutil.copytree('/repo',repo,ignore=shutil.ignore_patterns('.git'))
         vd=d+'/verif'; os.makedirs(vd)
-        for f in ('props.json','KNOWN_FINDINGS.json'): shutil.copy(V+'/'+f,vd)
+        for f in ('props.json','KNOWN_FINDINGS.json','hints.json'):
+            if os.path.exists(V+'/'+f): shutil.copy(V+'/'+f,vd)
         if 'patch' in m:
             p=m['patch'] if m['patch'].startswith('/') else V+'/'+m['patch']
             r=subprocess.run(['git','apply','--3way',p],cwd=repo,capture_output=True,text=True)
@@ -43,7 +44,7 @@ def one(m):
                 bad+=1; print('MISSED  %-28s expected %s; exit=%d; violations: %s'%(m['name'],m['expect'],r.returncode,[v[:120] for v in viol[:4]]))
     finally:
         shutil.rmtree(d,ignore_errors=True)
-with concurrent.futures.ThreadPoolExecutor(max_workers=3) as ex:
+with concurrent.futures.ThreadPoolExecutor(max_workers=int(os.environ.get('SELFTEST_WORKERS','2'))) as ex:
     list(ex.map(one,[m for m in muts if not sel or any(s in m['name'] for s in sel)]))
 print('selftest: %d caught, %d problems, %.0fs'%(ok,bad,time.time()-t0))
 sys.exit(1 if bad else 0)
